@@ -10,7 +10,7 @@ def jobs(tier, seed):
     seeds = [seed] if tier == "quick" else [seed, seed + 1000]
     js = []
     for s in seeds:
-        js += [("prims", "0/1", s), ("elem", "0/1", s), ("own", "0/1", s)]
+        js += [("prims", "0/1", s), ("elem", "0/1", s), ("own", "0/1", s), ("many", "0/1", s)]
         js += [("small", "%d/4" % i, s) for i in range(4)]
     js += [("big", "%d/6" % i, seed) for i in range(6)]
     return js
@@ -19,7 +19,7 @@ def run(res, tier, seed, replay):
     res.cov["rule"] = ("records = real CheckGroup()/CheckElement() calls of every parameter-carrying class (17 classes) on a valid set and on "
                        "every corruption of the catalogue (degenerate values 0/1/2/negated for every field, composite p or q with the "
                        "relation intact, wrong relation, short p or q, q | k, generators 0,1,2,p-1,p,p+1,-1,x+p,x-p,p-x, non-member, "
-                       "coinciding generators, non-derived generator), CheckElement exhaustively on -2..p+2 for p < 2^12; every verdict on a "
+                       "coinciding generators, non-derived generator; commitment schemes with 255, 256, 257, 258, 300, 512 generators corrupted at index 0, 255, 256, last), CheckElement exhaustively on -2..p+2 for p < 2^12; every verdict on a "
                        "group of at most 72 bits is recomputed by the extracted Coq model; PROPFAIL = verdict differs from the declarative "
                        "oracle of the harness (plain GMP), on groups up to 512/160 bits (quick) and 1024/160 bits (thorough)")
     res.assumptions += ["mpz_probab_prime_p is a correct primality test (premise prime_test_correct of the theorems; the driver uses trial "
